@@ -1136,10 +1136,12 @@ class AstEval:
             self.sym_table = self.sym_table_stack.pop()
 
         decorators = [await self.aeval(dec) for dec in arg.decorator_list]
-        sym_table["__init__evalfunc_wrap__"] = None
         if "__init__" in sym_table:
             sym_table["__init__evalfunc_wrap__"] = sym_table["__init__"]
             del sym_table["__init__"]
+        elif not any(hasattr(base, "__init__evalfunc_wrap__") for base in bases):
+            # a class without its own __init__ inherits the (renamed) __init__ of a script base class
+            sym_table["__init__evalfunc_wrap__"] = None
         cls = metaclass(arg.name, tuple(bases), sym_table, **keywords)
         if inspect.iscoroutine(cls):
             cls = await cls
